@@ -462,6 +462,12 @@ where
         self.remove(coord);
     }
 
+    /// Verification hook: mutable access to the node at the coordinate (the harness sets its error and data).
+    #[cfg(reinterpretcat_vrp_verif)]
+    pub fn verif_node_mut(&mut self, coord: &Coordinate) -> Option<&mut Node<I, S>> {
+        self.get_mut(coord)
+    }
+
     /// Remaps internal lattice after potential changes in coordinate schema.
     pub(super) fn remap(&mut self, node_modifier: &(dyn Fn(Coordinate, Node<I, S>) -> Node<I, S>)) {
         let nodes = self.nodes.drain().map(|(coord, node)| node_modifier(coord, node)).collect::<Vec<_>>();
